@@ -396,6 +396,46 @@ theorem axisSelect_spec (sh : List Nat) (sel : List (List Nat)) (x : Nat → K) 
         (sel.getD d []).getD ((unravel (sel.map List.length) r).getD d 0) 0)) := by
   unfold axisSelect; exact gather_spec _ _ _ x r hr
 
+/-- SliceOperator, one axis: the selected pixels are `npix` consecutive in-range pixels; centred slices leave
+    `floor((n−npix)/2)` pixels in front and the remaining `ceil` behind -/
+theorem sliceSel_spec (n npix : Nat) (center : Bool) (h : npix ≤ n) :
+    (sliceSel n npix center).length = npix ∧
+    (∀ k, k < npix → (sliceSel n npix center).getD k 0 = (if center then (n - npix) / 2 else 0) + k) ∧
+    (∀ i ∈ sliceSel n npix center, i < n) := by
+  refine ⟨by simp [sliceSel], ?_, ?_⟩
+  · intro k hk
+    unfold sliceSel
+    rw [getD_map_range _ _ _ _ hk]
+  · intro i hi
+    simp only [sliceSel, List.mem_map, List.mem_range] at hi
+    obtain ⟨k, hk, rfl⟩ := hi
+    split <;> omega
+
+/-- `utilities.parse_spaces`: `None` means all sub-domains; an accepted tuple is returned unchanged and is in range -/
+theorem parseSpaces_ok (n : Nat) :
+    parseSpaces none n = .ok (List.range n) ∧
+    ∀ l' l, parseSpaces (some l') n = .ok l → l = l' ∧ ∀ s ∈ l, s < n := by
+  refine ⟨rfl, ?_⟩
+  intro l' l h
+  simp only [parseSpaces] at h
+  split at h
+  · rename_i he
+    simp only [Except.ok.injEq] at h; subst h
+    simp only [List.isEmpty_iff] at he; subst he
+    exact ⟨rfl, fun s hs => by simp at hs⟩
+  · split at h
+    · cases h
+    · rename_i hany
+      split at h
+      · cases h
+      · simp only [Except.ok.injEq] at h; subst h
+        refine ⟨rfl, ?_⟩
+        intro s hs
+        by_contra hge
+        apply hany
+        simp only [List.any_eq_true, decide_eq_true_eq]
+        exact ⟨s, hs, by omega⟩
+
 /-- the indices a (repaired) SplitOperator selects for `start:stop:step` are exactly NumPy's: all
     `start + k·step` below `min stop n` — in particular their number is the ceiling, not the floor, of
     `(stop − start)/step` (finding C02-split_strided_length) -/
